@@ -279,6 +279,9 @@ class Check:
     def check_proofs(self, files=None):
         """Re-run coqc on the property file(s); count theorems, collect Print Assumptions."""
         files = files or [self.pid + ".v"]
+        # non-vacuity witnesses (Examples meeting the hypotheses of the property theorems) are checked with them
+        if os.path.exists(os.path.join(THEORIES, self.pid + "w.v")) and self.pid + "w.v" not in files:
+            files = files + [self.pid + "w.v"]
         ok = self.make_ok
         err = "" if ok else self.make_out[-2000:]
         thms, assum = [], []
@@ -286,7 +289,8 @@ class Check:
             path = os.path.join(THEORIES, f)
             src = open(path).read()
             names = re.findall(r"^\s*(?:Theorem|Lemma|Corollary)\s+(\w+)", src, re.M)
-            thms += names
+            if not f.endswith("w.v"):
+                thms += names             # witness files hold Examples and helper lemmas, not property theorems
             rc, out = sh(["timeout", "600", "coqc"] + QARGS + [path], cwd=COQ, timeout=700)
             if rc != 0:
                 ok = False
